@@ -16,6 +16,8 @@ Line-protocol driver for C16.  One request per line, one answer per line.
   cmd:  a<f> assert | o<g> objective | s<id>.<f>.<w> assert-soft | u<n> push | p<n> pop | r reset-assertions
         | c check-sat | x other
   op:   a<f> | u<n> | p<n> | r | s solve | qs<f> is_sat | qv<f> is_valid | qu<f> is_unsat | qa<f> solve([f]) | g read
+        | S solve() whose check raises | x{s,v,u,a}<f> the query, its check raises | y{s,v,u,a}<f> the query, asserting
+        its formula raises      (a state is followed by `!` when the call ended with that exception)
   cfg:  9 characters 0/1: dAdd dPush dPop dReset dSolve dRead tracking native pushSupported
   ids:  comma separated numbers (`-` for the empty list); goals: `;`-separated, `o<g>` or `m<f>.<w>,<f>.<w>…`
   state: <native levels, innermost first, `|`-separated>/<tracked>/<points, most recent first>/<pending 0|1>/<last check or ->
@@ -42,6 +44,15 @@ def parseCmd (t : String) : Option Cmd :=
   | 'x' => if rest.isEmpty then some .other else none
   | _ => none
 
+def parseFails (fail : Fail) (rest : String) : Option Op :=
+  let r2 := (rest.drop 1).toString
+  match rest.front with
+  | 's' => r2.toNat?.map (Op.oneshotFails .isSat fail)
+  | 'v' => r2.toNat?.map (Op.oneshotFails .isValid fail)
+  | 'u' => r2.toNat?.map (Op.oneshotFails .isUnsat fail)
+  | 'a' => r2.toNat?.map (Op.oneshotFails .assuming fail)
+  | _ => none
+
 def parseOp (t : String) : Option Op :=
   let rest := (t.drop 1).toString
   match t.front with
@@ -59,6 +70,9 @@ def parseOp (t : String) : Option Op :=
     | 'u' => r2.toNat?.map (Op.oneshot .isUnsat)
     | 'a' => r2.toNat?.map (Op.oneshot .assuming)
     | _ => none
+  | 'S' => if rest.isEmpty then some .solveFails else none
+  | 'x' => parseFails .solve rest
+  | 'y' => parseFails .add rest
   | _ => none
 
 def parseAll {α : Type} (p : String → Option α) (ts : List String) : Option (List α) :=
@@ -99,7 +113,7 @@ def trackRun (cfg : SolverTrack.Config) : SolverTrack.St → List Op → List St
   | _, [] => []
   | st, o :: os => match SolverTrack.step cfg st o with
     | .error e => [trackErr e]
-    | .ok st' => stateStr st' :: trackRun cfg st' os
+    | .ok st' => (stateStr st' ++ (if SolverTrack.raises cfg o then "!" else "")) :: trackRun cfg st' os
 
 def specRun : Stack → List Op → List String
   | _, [] => []
